@@ -11,7 +11,17 @@ def main():
     ok, out = vlib.lake_build(["TexelVerif", "driver"], timeout=3600)
     print(out[-3000:])
     if not ok:
-        print("setup: lake build failed"); return 1
+        # e.g. a Bridge theorem no longer checks against the current /repo: the owning check reports that itself;
+        # build whatever else builds so that the other checks start warm
+        print("setup: lake build of the root failed; building the driver and the property modules one by one", flush=True)
+        okd, outd = vlib.lake_build(["driver"], timeout=3600)
+        if not okd:
+            print(outd[-2000:]); print("setup: driver build failed"); return 1
+        import glob
+        for f in sorted(glob.glob(os.path.join(vlib.LEAN, "TexelVerif", "Props", "*.lean"))):
+            m = "TexelVerif.Props." + os.path.basename(f)[:-5]
+            okm, _ = vlib.lake_build([m], timeout=3600)
+            print(f"setup: {m}: {'ok' if okm else 'FAILED'}", flush=True)
     print(f"setup: lean built in {time.time()-t0:.0f}s", flush=True)
     for variant, targets in [("plain", ("vharness", "texel", "texelutil", "mknet")), ("asan", ("vharness", "texel"))]:
         t1 = time.time()
